@@ -7,7 +7,12 @@
    KVal                 : the value parsers (Cookie, URI, Args, byte range, header params, multipart), recorded by Go:
                           validation by search, no model. *)
 From FH Require Import Model.Base Gen.GenC09 Model.Lines Model.ReqHead Model.RespHead Spec.HeadSpec Check.C09Check.
+From FH Require Gen.GenC08 Model.Body.     (* the body readers of m-c07-c34: readHexInt with the regenerated maxHexIntChars64 *)
 Open Scope nat_scope.
+
+(* the tie of the body-reader model to the regenerated constant: both specs name the same source constant *)
+Example hex_limit_tie : GenC08.maxHexIntChars64 = GenC30.maxHexIntChars64.
+Proof. reflexivity. Qed.
 
 Record msg_obs := {
   m_panic : bool; m_timeout : bool; m_ok : bool;
@@ -24,46 +29,63 @@ Inductive c08case :=
 
 Definition str100Continue : bytes := s2b "100-continue".
 
-(* the input ended before the declared end of the message and everything was consumed (the pre-parsed multipart
-   path accepts such a truncated body at EOF — reported, not a C08 matter) *)
-Definition truncated_at (input : bytes) (msg_end : Z) (o : msg_obs) : bool :=
-  Z.eqb (m_consumed o) (Z.of_nat (length input)) && Z.ltb (Z.of_nat (length input)) msg_end.
+(* ---- body readers: outcome class of Model.Body on what follows the head ---- *)
+Inductive bclass := BCOk (consumed : Z) | BCErr | BCPanic | BCUnknown.
 
-(* what the head model says about a whole-message read (default configuration, everything buffered, then EOF) *)
+Definition class_of_body (after_head : nat) (rest : bytes) (r : Body.bres) : bclass :=
+  match r with
+  | Body.BOk _ rest' _ => BCOk (Z.of_nat after_head + Z.of_nat (length rest) - Z.of_nat (length rest'))
+  | Body.BErr Body.ETrailer _ _ => BCUnknown       (* trailer fields: parseTrailer is not part of Body.v's stand-in *)
+  | Body.BErr _ _ _ => BCErr
+  | Body.BPanic => BCPanic
+  | Body.BOutOfFuel => BCUnknown
+  end.
+
+Definition class_matches (m : bclass) (o : msg_obs) : bool :=
+  match m with
+  | BCOk c => m_ok o && negb (m_panic o) && Z.eqb (m_consumed o) c
+  | BCErr => negb (m_ok o) && negb (m_panic o)
+  | BCPanic => m_panic o
+  | BCUnknown => true
+  end.
+
+Definition strMultipartFormData : bytes := s2b "multipart/form-data".
+
+(* what the head model + the body-reader model say about a whole-message read (default configuration,
+   everything buffered, then EOF) *)
 Definition msg_corr_req (input : bytes) (maxBody : Z) (o : msg_obs) : bool :=
-  if m_panic o || m_timeout o then true      (* judged by prop_ok *)
+  if m_timeout o then true      (* judged by prop_ok *)
   else
   match req_read default_cfg 4096 input PEEof with
   | TOk hd n =>
-      if m_ok o then
-        let n := Z.of_nat n in
-        let cl := content_length hd in
-        if beq (peekArgBytes (fields hd) strExpect) str100Continue then Z.eqb (m_consumed o) n   (* MayContinue *)
-        else if Z.ltb 0 cl then Z.eqb (m_consumed o) (n + cl) || truncated_at input (n + cl) o
-        else if Z.eqb cl 0 || Z.eqb cl (-2) then Z.eqb (m_consumed o) n
-        else Z.leb n (m_consumed o)                                                              (* chunked *)
-      else true
+      let rest := skipn n input in
+      let cl := content_length hd in
+      let m :=
+        if beq (peekArgBytes (fields hd) strExpect) str100Continue then BCOk (Z.of_nat n)      (* MayContinue *)
+        else if Z.ltb 0 cl && has_prefix strMultipartFormData (ctype hd) then BCUnknown           (* pre-parsed form *)
+        else class_of_body n rest (Body.reqReadBody Body.trailer_reject cl maxBody rest) in
+      class_matches m o
   | TBug => false
-  | _ => negb (m_ok o)                        (* a rejected or incomplete head never yields a message *)
+  | _ => negb (m_ok o) && negb (m_panic o)        (* a rejected or incomplete head never yields a message *)
   end.
 
 Definition is_interim (code : Z) : bool := Z.leb 100 code && Z.leb code 199 && negb (Z.eqb code 101).
 
 Definition msg_corr_resp (input : bytes) (maxBody : Z) (o : msg_obs) : bool :=
-  if m_panic o || m_timeout o then true
+  if m_timeout o then true
   else
   match resp_read default_cfg 4096 input PEEof with
   | TOk hd n =>
-      if m_ok o then
-        let n := Z.of_nat n in
-        let cl := rcontent_length hd in
-        if is_interim (status hd) then Z.leb n (m_consumed o)                 (* further heads follow *)
-        else if mustSkipContentLength (status hd) then Z.eqb (m_consumed o) n
-        else if Z.leb 0 cl then Z.eqb (m_consumed o) (n + cl) || truncated_at input (n + cl) o
-        else Z.leb n (m_consumed o)                                           (* chunked / identity *)
-      else true
+      let rest := skipn n input in
+      let cl := rcontent_length hd in
+      let m :=
+        if is_interim (status hd) then BCUnknown                 (* further heads follow *)
+        else if mustSkipContentLength (status hd) then BCOk (Z.of_nat n)
+        else if Z.eqb cl (-2) then BCUnknown                      (* identity: read sizes are not recorded *)
+        else class_of_body n rest (Body.respReadBody Body.trailer_reject cl maxBody 0%Z [] rest) in
+      class_matches m o
   | TBug => false
-  | _ => negb (m_ok o)
+  | _ => negb (m_ok o) && negb (m_panic o)
   end.
 
 Definition corr_ok (c : c08case) : bool :=
